@@ -159,9 +159,6 @@ value). The theorems below are about the collectors of `Req.H1.RequestWrite` (HT
 section Wire
 open Req.Proto Req.H1 Req.H2 Req.Validate Req.BStr
 
-/-- the lines written for a list of key/value groups -/
-def linesOf (h : List KV) : List (Bytes × Bytes) := h.flatMap fun kv => kv.values.map fun v => (kv.key, v)
-
 theorem linesOf_perm {a b : List KV} (h : a.Perm b) : (linesOf a).Perm (linesOf b) :=
   List.Perm.flatMap_right _ h
 
